@@ -122,6 +122,7 @@ type wrappedSink struct {
 	lastError             error
 	lastProcessed         int
 	recursionDepth        int
+	failedThisRun         bool // an entity was rejected in this run
 }
 
 // verifyErrorHandlers checks that the error handlers are valid, and also
@@ -306,6 +307,7 @@ func (w *wrappedSink) processEntities(runner *Runner, entities []*server.Entity)
 	if err != nil {
 		// if this was a single entity, and it failed, run handles
 		if len(entities) <= 1 {
+			w.failedThisRun = true
 			for _, eh := range w.failingEntityHandlers {
 				for _, entity := range entities {
 					err2 := eh.handleFailingEntity(runner, entity, w.jobId)
@@ -345,7 +347,9 @@ func (w *wrappedSink) processEntities(runner *Runner, entities []*server.Entity)
 		}
 	} else {
 		// unset error if this was an unsplit batch without failure
-		if w.recursionDepth == 0 {
+		// a rejected single-entity batch does not increase the recursion depth,
+		// its error must survive later successful batches of the same run
+		if w.recursionDepth == 0 && !w.failedThisRun {
 			w.lastError = nil
 		}
 	}
@@ -362,6 +366,7 @@ func (w *wrappedSink) endFullSync(ctx context.Context, runner *Runner) error {
 
 func (w *wrappedSink) reset() {
 	w.recursionDepth = 0
+	w.failedThisRun = false
 	for _, eh := range w.failingEntityHandlers {
 		eh.reset()
 	}
